@@ -256,3 +256,7 @@ func NondetU256Below(name string, bound *uint256.Int) *uint256.Int {
 	Assume(v.Lt(bound))
 	return v
 }
+
+// RegisterKey tells the executor which address / public key belongs to a
+// private key (natively a no-op: the real cryptography is used).
+func RegisterKey(privHex string, addr, pub []byte) {}
